@@ -14,6 +14,13 @@ func unit(g *group, entry, name string, params map[string]interface{}) *interp.U
 	return &interp.Unit{Name: name, Harness: g.Name, PkgPath: g.PkgPath, Entry: entry, Params: params, Samples: 6}
 }
 
+func pickInts(c *checkCtx, quick, thorough []int) []int {
+	if c.quick() {
+		return quick
+	}
+	return thorough
+}
+
 func pick(c *checkCtx, quick, thorough int) int {
 	if c.quick() {
 		return quick
@@ -185,9 +192,31 @@ func endUnits(c *checkCtx) []*interp.Unit {
 }
 
 func init() {
+	cli := groups["cli"]
+	specUnits := func(entry string, specs []string, profs []profile, samples int) []*interp.Unit {
+		var us []*interp.Unit
+		for _, sp := range specs {
+			for _, pr := range profs {
+				ps := map[string]interface{}{"spec": sp, "envmask": 15, "defEqEnv": 0, "names": 0, "custom": 0}
+				for k, v := range pr.params {
+					ps[k] = v
+				}
+				u := unit(cli, entry, fmt.Sprintf("%s[%q %s]", entry, sp, pr.name), ps)
+				u.Samples = samples
+				us = append(us, u)
+			}
+		}
+		return us
+	}
 	reg(&propDef{
 		ID: "C01", Level: "model_checking",
-		Units: func(c *checkCtx) []*interp.Unit { return acceptUnits(c, "C01") },
+		Units: func(c *checkCtx) []*interp.Unit {
+			us := acceptUnits(c, "C01")
+			// single options backed by a set environment variable: the verdict is the reference's with the
+			// option satisfied when absent (differential clause of H_envmono; group-free specs)
+			return append(us, specUnits("H_envmono", []string{"-e [-a] X", "-e [-a] [X]", "-o -e X", "[-a] -e [-o] X..."},
+				[]profile{{"env-backed single options, tmpl K<=2 Lp<=1, env subsets of {VA,VE}", map[string]interface{}{"profile": "tmpl", "K": 2, "Lp": 1, "envmask": 9, "defEqEnv": 0}}}, 1)...)
+		},
 		Bounds: func(c *checkCtx) map[string]interface{} {
 			if c.quick() {
 				return map[string]interface{}{"specs": "curated + END family + every 48th generated spec (rotated by VERIF_SEED)", "raw": "K<=2 tokens of L<=3 arbitrary bytes", "template": "K<=2 items over 24 documented/malformed shapes, payload <=1 byte", "structural (H_struct)": "every sequence of <=4 spec tokens over 16 kinds that compiles: language equivalence of the compiled graph and the Glushkov automaton of the reference regular expression, proved by k-induction in z3 for label sequences of any length"}
@@ -199,28 +228,40 @@ func init() {
 	})
 	reg(&propDef{
 		ID: "C02", Level: "model_checking",
-		Units:       func(c *checkCtx) []*interp.Unit { return acceptUnits(c, "C02") },
-		Bounds:      func(c *checkCtx) map[string]interface{} { return props["C01"].Bounds(c) },
+		Units: func(c *checkCtx) []*interp.Unit {
+			us := acceptUnits(c, "C02")
+			// user-defined value types: the variable receives exactly the written values (the Set log)
+			for _, x := range [][3]int{{4, 1, 0}, {4, 1, 1}, {0, 1, 1}, {2, 0, 1}, {6, 1, 0}} {
+				combo, opt, fa := x[0], x[1], x[2]
+				lp := 1
+				if opt == 0 {
+					lp = 2
+				}
+				u := unit(cli, "H_custom", fmt.Sprintf("H_custom[combo %03b %s IsBoolFlag()=%v Lp<=%d, + positional]", combo, map[int]string{1: "opt", 0: "arg"}[opt], fa == 1, lp),
+					map[string]interface{}{"combo": combo, "opt": opt, "Lp": lp, "envLen": 1, "flagAnswer": fa, "withArg": opt, "group": 0, "fold": 0})
+				u.Samples = 2
+				us = append(us, u)
+			}
+			return us
+		},
+		Bounds: func(c *checkCtx) map[string]interface{} {
+			b := props["C01"].Bounds(c)
+			b["custom values"] = "5 shapes of user-defined value types (flag-like answering true / false, multi-valued, plain) as option (+ a positional) or argument: the Set calls are exactly the written values, in order"
+			return b
+		},
 		Assumptions: props["C01"].Assumptions,
 		Outside:     props["C01"].Outside,
 	})
 	lex := groups["lexer"]
 	par := groups["parser"]
-	cli := groups["cli"]
-	specUnits := func(entry string, specs []string, profs []profile, samples int) []*interp.Unit {
-		var us []*interp.Unit
-		for _, sp := range specs {
-			for _, pr := range profs {
-				ps := map[string]interface{}{"spec": sp, "envmask": 15, "defEqEnv": 0}
-				for k, v := range pr.params {
-					ps[k] = v
-				}
-				u := unit(cli, entry, fmt.Sprintf("%s[%q %s]", entry, sp, pr.name), ps)
-				u.Samples = samples
-				us = append(us, u)
-			}
-		}
-		return us
+	// respellNames: C10 over a table of unusual but legal option names.
+	respellNames := func(n int) []*interp.Unit {
+		return specUnits("H_respell", []string{"[OPTIONS]", "[--ipv4] [--keepGoing] [--outDir] [--e_6-x]", "--ipv4 [-k] [-o]", "[-k] [--ipv4] [--e_6-x]"},
+			[]profile{{fmt.Sprintf("names 4/ipv4 k/keepGoing o/outDir 6/e_6-x, n<=%d Lp<=1", n), map[string]interface{}{"n": n, "Lp": 1, "flagsOnly": 0, "names": 1}}}, 1)
+	}
+	respellCustom := func(n int) []*interp.Unit {
+		return specUnits("H_respell", []string{"[-a] [-b] [-o]", "[OPTIONS]", "[-ab] [-o]"},
+			[]profile{{fmt.Sprintf("flags are user-defined value types, n<=%d Lp<=1", n), map[string]interface{}{"n": n, "Lp": 1, "flagsOnly": 0, "custom": 1}}}, 1)
 	}
 	endFree := func(specs []string) []string {
 		var out []string
@@ -248,8 +289,12 @@ func init() {
 			return []*interp.Unit{
 				unit(lex, "H_lex_ref", fmt.Sprintf("H_lex_ref[Ls<=%d]", ls), map[string]interface{}{"Ls": ls}),
 				unit(par, "H_parse_ref", fmt.Sprintf("H_parse_ref[k<=%d]", k), map[string]interface{}{"k": k}),
-				unit(cli, "H_doinit_total", fmt.Sprintf("H_run_panics[Ls<=%d]", ld), map[string]interface{}{"Ls": ld, "sub": 0}),
-				unit(cli, "H_doinit_total", fmt.Sprintf("H_run_panics[spec of a sub-command, 3 policies, Ls<=%d]", ld-1), map[string]interface{}{"Ls": ld - 1, "sub": 1}),
+				unit(cli, "H_doinit_total", fmt.Sprintf("H_run_panics[Ls<=%d]", ld), map[string]interface{}{"Ls": ld, "sub": 0, "argvKind": 0}),
+				unit(cli, "H_doinit_total", fmt.Sprintf("H_run_panics[spec of a sub-command, 3 policies, Ls<=%d]", ld-1), map[string]interface{}{"Ls": ld - 1, "sub": 1, "argvKind": 0}),
+				unit(cli, "H_doinit_total", fmt.Sprintf("H_run_panics[help requested, Ls<=%d]", ld-1), map[string]interface{}{"Ls": ld - 1, "sub": 0, "argvKind": 1}),
+				unit(cli, "H_doinit_total", fmt.Sprintf("H_run_panics[version declared and requested, Ls<=%d]", ld-1), map[string]interface{}{"Ls": ld - 1, "sub": 0, "argvKind": 2}),
+				unit(cli, "H_doinit_total", fmt.Sprintf("H_run_panics[no arguments, Ls<=%d]", ld-1), map[string]interface{}{"Ls": ld - 1, "sub": 0, "argvKind": 3}),
+				unit(cli, "H_doinit_total", fmt.Sprintf("H_run_panics[long version name requested, Ls<=%d]", ld-1), map[string]interface{}{"Ls": ld - 1, "sub": 0, "argvKind": 4}),
 			}
 		},
 		Bounds: func(c *checkCtx) map[string]interface{} {
@@ -266,7 +311,14 @@ func init() {
 			ls, ld := pick(c, 4, 5), pick(c, 4, 5)
 			us := []*interp.Unit{
 				unit(lex, "H_lex_total", fmt.Sprintf("H_lex_total[Ls<=%d]", ls), map[string]interface{}{"Ls": ls}),
-				unit(cli, "H_doinit_total", fmt.Sprintf("H_doinit_total[Ls<=%d]", ld), map[string]interface{}{"Ls": ld, "sub": 0}),
+				unit(cli, "H_doinit_total", fmt.Sprintf("H_doinit_total[Ls<=%d]", ld), map[string]interface{}{"Ls": ld, "sub": 0, "argvKind": 0}),
+			}
+			// command trees: help tokens, `--`, command names and raw tokens under the three policies
+			for _, t := range pickInts(c, []int{1, 6, 8}, []int{1, 2, 3, 4, 5, 6, 7, 8}) {
+				k := pick(c, 3, 4)
+				u := unit(cli, "H_tree_total", fmt.Sprintf("H_tree_total[tree %d, K<=%d L<=1]", t, k), map[string]interface{}{"tree": t, "K": k, "L": 1, "env": 0, "subpol": 0})
+				u.Samples = 2
+				us = append(us, u)
 			}
 			specs := append(evalList(c, "vFamilyEnv"), evalList(c, "vFamilyEnvEnd")...)
 			cur := append(evalList(c, "vFamilyCurated"), evalList(c, "vFamilyEnd")...)
@@ -287,6 +339,7 @@ func init() {
 		Bounds: func(c *checkCtx) map[string]interface{} {
 			return map[string]interface{}{"H_lex_total/H_doinit_total": fmt.Sprintf("all spec byte strings of <= %d bytes", pick(c, 4, 5)),
 				"H_apply_total": "env-heavy + curated (+ generated, thorough) specs x every subset of the 4 options backed by a set environment variable x argv " + map[bool]string{true: "raw K<=2 L<=2", false: "raw K<=2 L<=3 and template K<=2"}[c.quick()],
+				"H_tree_total":  "command trees (sub-commands, own -h options, version flag) x K<=3/4 tokens from {help tokens, --, version names, aliases, raw byte} x 3 policies: no runtime error, panics only under PanicOnError",
 				"unwinding":     "recursion depth of fsm apply <= (bytes+tokens+2)*(4*len(spec)+6); calls of simplifySelf <= 40*(len(spec)+2)^2; 20M interpreted instructions per path"}
 		},
 		Assumptions: commonAssumptions,
@@ -299,14 +352,17 @@ func init() {
 			gen := endFree(evalList(c, "vFamilyGenerated"))
 			if c.quick() {
 				specs := append(everyNth(cur, 3, c.seed), everyNth(gen, 64, c.seed)...)
-				return append(endUnits(c), specUnits("H_dd_insert", specs, []profile{{"tmpl K<=2 Lp<=1", map[string]interface{}{"profile": "tmpl", "K": 2, "Lp": 1}}, {"raw K<=2 L<=2", map[string]interface{}{"profile": "raw", "K": 2, "L": 2}}}, 1)...)
+				us := append(endUnits(c), specUnits("H_dd_insert", specs, []profile{{"tmpl K<=2 Lp<=1", map[string]interface{}{"profile": "tmpl", "K": 2, "Lp": 1}}, {"raw K<=2 L<=2", map[string]interface{}{"profile": "raw", "K": 2, "L": 2}}}, 1)...)
+				return append(us, ddTreeUnits([]int{2, 3, 5}, 3, 2)...)
 			}
 			specs := append(cur, everyNth(gen, 4, c.seed)...)
-			return append(endUnits(c), specUnits("H_dd_insert", specs, []profile{{"tmpl K<=3 Lp<=1", map[string]interface{}{"profile": "tmpl", "K": 3, "Lp": 1}}, {"raw K<=2 L<=3", map[string]interface{}{"profile": "raw", "K": 2, "L": 3}}}, 1)...)
+			us := append(endUnits(c), specUnits("H_dd_insert", specs, []profile{{"tmpl K<=3 Lp<=1", map[string]interface{}{"profile": "tmpl", "K": 3, "Lp": 1}}, {"raw K<=2 L<=3", map[string]interface{}{"profile": "raw", "K": 2, "L": 3}}}, 1)...)
+			return append(us, ddTreeUnits([]int{1, 2, 3, 4, 5, 7}, 4, 2)...)
 		},
 		Bounds: func(c *checkCtx) map[string]interface{} {
 			return map[string]interface{}{"insertion": "every insertion point 0..K whose tail consists of non-dash positionals, including the very end",
 				"argv":  map[bool]string{true: "template K<=2 items (payload 1 byte), raw K<=2 L<=2", false: "template K<=3 items, raw K<=2 L<=3"}[c.quick()],
+				"trees": "the same insertion into one level's own tokens of a command tree (sub-commands follow): routing, verdict and every level's bindings unchanged; raw K<=3/4 tokens of <=2 bytes",
 				"specs": "`--`-free curated and generated specs (subset rotated by VERIF_SEED) for the insertion clause; END family (15 specs with a spec-level `--`) + 3 repetition specs through the differential harness H_accept (acceptance and verbatim bindings vs the reference) for the spec-level `--` / verbatim-tail clauses"}
 		},
 		Assumptions: append([]string{"no environment-backed options; token p-1 is not a valued option waiting for its value; no `--` before the insertion point"}, commonAssumptions...),
@@ -318,15 +374,20 @@ func init() {
 			all := withOption(endFree(append(evalList(c, "vFamilyCurated"), evalList(c, "vFamilyGenerated")...)))
 			core := []string{"[-o] [-e]", "-o -e", "[-a] [-o]", "[-a] [-o] [X]", "-a... [-b]", "-a... -b", "[OPTIONS]", "[--aa] [--oo] [--ee]", "-a -o", "-a -o X", "[-ab] [-o] X", "[-ab] X [-o]", "[-o] [-a]", "-b [-a] [-o]"}
 			if c.quick() {
-				us := specUnits("H_respell", append(core, everyNth(all, 64, c.seed)...), []profile{{"n<=2 Lp<=1", map[string]interface{}{"n": 2, "Lp": 1, "flagsOnly": 0}}}, 1)
-				return append(us, specUnits("H_respell", []string{"-a... [-b]", "-a... -b", "(-a | -b)...", "[-ab]..."}, []profile{{"flags only n<=4", map[string]interface{}{"n": 4, "Lp": 1, "flagsOnly": 1}}}, 1)...)
+				us := specUnits("H_respell", append(core, everyNth(all, 64, c.seed)...), []profile{{"n<=2 Lp<=1", map[string]interface{}{"n": 2, "Lp": 1, "flagsOnly": 0, "names": 0}}}, 1)
+				us = append(us, respellNames(2)...)
+				us = append(us, respellCustom(2)...)
+				return append(us, specUnits("H_respell", []string{"-a... [-b]", "-a... -b", "(-a | -b)...", "[-ab]..."}, []profile{{"flags only n<=4", map[string]interface{}{"n": 4, "Lp": 1, "flagsOnly": 1, "names": 0}}}, 1)...)
 			}
-			us := specUnits("H_respell", append(core, everyNth(all, 6, c.seed)...), []profile{{"n<=2 Lp<=2", map[string]interface{}{"n": 2, "Lp": 2, "flagsOnly": 0}}}, 1)
-			us = append(us, specUnits("H_respell", []string{"-a... [-b]", "-a... -b", "(-a | -b)...", "[-ab]...", "-a... -b...", "[OPTIONS]"}, []profile{{"flags only n<=5", map[string]interface{}{"n": 5, "Lp": 1, "flagsOnly": 1}}}, 1)...)
-			return append(us, specUnits("H_respell", everyNth(all, 48, c.seed), []profile{{"n<=3 Lp<=1", map[string]interface{}{"n": 3, "Lp": 1, "flagsOnly": 0}}}, 1)...)
+			us := specUnits("H_respell", append(core, everyNth(all, 6, c.seed)...), []profile{{"n<=2 Lp<=2", map[string]interface{}{"n": 2, "Lp": 2, "flagsOnly": 0, "names": 0}}}, 1)
+			us = append(us, specUnits("H_respell", []string{"-a... [-b]", "-a... -b", "(-a | -b)...", "[-ab]...", "-a... -b...", "[OPTIONS]"}, []profile{{"flags only n<=5", map[string]interface{}{"n": 5, "Lp": 1, "flagsOnly": 1, "names": 0}}}, 1)...)
+			us = append(us, respellNames(3)...)
+			us = append(us, respellCustom(3)...)
+			return append(us, specUnits("H_respell", everyNth(all, 48, c.seed), []profile{{"n<=3 Lp<=1", map[string]interface{}{"n": 3, "Lp": 1, "flagsOnly": 0, "names": 0}}}, 1)...)
 		},
 		Bounds: func(c *checkCtx) map[string]interface{} {
 			return map[string]interface{}{"items": map[bool]string{true: "n<=2 items, payload 1 symbolic byte; n<=4 flag occurrences (deep folds)", false: "n<=2 items payload <=2 bytes; n<=3 items payload 1 byte; n<=5 flag occurrences"}[c.quick()],
+				"names":     "the table a/aa b/bb o/oo e/ee, and on 4 specs the table 4/ipv4 k/keepGoing o/outDir 6/e_6-x (digit short names, upper-case letters, `_` and `-` in long names)",
 				"spellings": "every form (4 for flags, 5 for valued options) and every legal folding of adjacent short forms, compared with the canonical spelling (one token per occurrence, long form with '=')"}
 		},
 		Assumptions: append([]string{"values are non-empty and do not start with '-' (separate form) or '=' (attached form); no option item after a `--` item", "forms and folds are case splits enumerated by the engine; payload bytes are symbolic"}, commonAssumptions...),
@@ -342,10 +403,12 @@ func init() {
 				us := specUnits("H_swap", append(core, everyNth(all, 32, c.seed)...), []profile{{"n<=2 Lp<=1", map[string]interface{}{"n": 2, "Lp": 1, "env": 0, "flagsOnly": 0}}}, 1)
 				us = append(us, specUnits("H_swap", envSpecs, []profile{{"n<=2 Lp<=1 env subsets", map[string]interface{}{"n": 2, "Lp": 1, "env": 1, "flagsOnly": 0}}}, 1)...)
 				us = append(us, specUnits("H_swap", []string{"[OPTIONS]", "[-ab]", "-a... [-b]", "(-a | -b)..."}, []profile{{"flags only n<=4, env subsets of {VA,VB}", map[string]interface{}{"n": 4, "Lp": 1, "env": 1, "flagsOnly": 1, "envmask": 3}}}, 1)...)
+				us = append(us, specUnits("H_swap", []string{"[-a] [-b]", "[-b] [-o] [-a]", "[OPTIONS]"}, []profile{{"flags are user-defined value types, n<=2 Lp<=1", map[string]interface{}{"n": 2, "Lp": 1, "env": 0, "flagsOnly": 0, "custom": 1}}}, 1)...)
 				return append(us, specUnits("H_swap", append([]string{"[-a] [-o] [X]", "[-o] [-e] [-a]"}, everyNth(all, 960, c.seed)...), []profile{{"n<=3 Lp<=1", map[string]interface{}{"n": 3, "Lp": 1, "env": 0, "flagsOnly": 0}}}, 1)...)
 			}
 			us := specUnits("H_swap", append(core, everyNth(all, 8, c.seed)...), []profile{{"n<=3 Lp<=1", map[string]interface{}{"n": 3, "Lp": 1, "env": 0, "flagsOnly": 0}}}, 1)
 			us = append(us, specUnits("H_swap", []string{"[OPTIONS]", "[-ab]", "-a... [-b]", "(-a | -b)...", "[-ab]... X"}, []profile{{"flags only n<=5 env subsets", map[string]interface{}{"n": 5, "Lp": 1, "env": 1, "flagsOnly": 1}}}, 1)...)
+			us = append(us, specUnits("H_swap", []string{"[-a] [-b]", "[-b] [-o] [-a]", "[OPTIONS]", "[-ab] [-o]", "-a [-b] X"}, []profile{{"flags are user-defined value types, n<=3 Lp<=1", map[string]interface{}{"n": 3, "Lp": 1, "env": 0, "flagsOnly": 0, "custom": 1}}}, 1)...)
 			return append(us, specUnits("H_swap", envSpecs, []profile{{"n<=3 Lp<=1 env subsets", map[string]interface{}{"n": 3, "Lp": 1, "env": 1, "flagsOnly": 0}}}, 1)...)
 		},
 		Bounds: func(c *checkCtx) map[string]interface{} {
@@ -395,8 +458,8 @@ func init() {
 		}
 		return us
 	}
-	allTrees := []int{0, 1, 2, 3, 4, 5, 7}
-	helpTrees := []int{1, 3, 4, 5, 6}
+	allTrees := []int{0, 1, 2, 3, 4, 5, 7, 8, 10}
+	helpTrees := []int{1, 3, 4, 5, 6, 8}
 	precUnits := func(c *checkCtx, check string) []*interp.Unit {
 		var us []*interp.Unit
 		for t := 0; t < 7; t++ {
@@ -440,7 +503,7 @@ func init() {
 		ID: "C04", Level: "model_checking",
 		Units: func(c *checkCtx) []*interp.Unit {
 			if c.quick() {
-				return append(treeUnits("H_route", allTrees, 3, 2, 4), treeUnits("H_route", []int{0, 1, 7}, 2, 3, 4)...)
+				return append(treeUnits("H_route", allTrees, 3, 2, 4), treeUnits("H_route", []int{0, 1, 7, 9}, 2, 3, 4)...)
 			}
 			return append(treeUnits("H_route", allTrees, 6, 2, 4), treeUnits("H_route", allTrees, 4, 3, 4)...)
 		},
@@ -498,7 +561,7 @@ func init() {
 			return us
 		},
 		Bounds: func(c *checkCtx) map[string]interface{} {
-			return map[string]interface{}{"depth": map[bool]string{true: "d<=2 (7 hooks)", false: "d<=4 (11 hooks, 4.2M kind vectors)"}[c.quick()], "hooks": "each of the 2d+3 hooks is absent / returns / panics(v) / calls Exit(n): all 4^(2d+3) combinations (case split); v and n are symbolic (64-bit), decided by the solver"}
+			return map[string]interface{}{"depth": map[bool]string{true: "d<=2 (7 hooks)", false: "d<=4 (11 hooks, 4.2M kind vectors)"}[c.quick()], "hooks": "each of the 2d+3 hooks is absent / returns / panics(v) / calls Exit(n): all combinations (case split); n is symbolic (64-bit); v is a symbolic integer, an error value, a string with a symbolic byte or (d<=1) a genuine runtime error raised by the hook (d>=3: symbolic integers only)"}
 		},
 		Assumptions: append([]string{"the process-exit function is replaced by a recording stub that does not return (os.Exit never returns)", "oracle: 20-line chain reference (DESIGN D.3)"}, commonAssumptions...),
 		Outside:     []string{"panic(nil)", "hooks calling os.Exit directly", "deeper paths"},
@@ -507,10 +570,12 @@ func init() {
 		Outside: []string{"longer environment values / more variables", "custom types (C19)"}})
 	reg(&propDef{ID: "C15", Level: "model_checking", Units: func(c *checkCtx) []*interp.Unit {
 		us := precUnits(c, "C15")
+		// sub-commands: one SetByUser variable shared by the -f of every level of a tree
+		us = append(us, treeUnits("H_route", []int{1, 2}, pick(c, 3, 4), 2, 2)...)
 		// several parameters at once: the SetByUser flags with environment values set equal those without
 		us = append(us, specUnits("H_envmono", []string{"[OPTIONS] X [OPTIONS]", "[-ae] X [-ae]"},
 			[]profile{{"core template K<=3, env subsets of {VA,VE}", map[string]interface{}{"profile": "tmplmini", "K": 3, "Lp": 1, "envmask": 9}}}, 1)...)
-		return append(us, specUnits("H_envmono", []string{"[-a] (X Y | X)", "[-e] (X Y) | X", "[OPTIONS] X...", "[-a] [-o] X [Y]"},
+		return append(us, specUnits("H_envmono", []string{"[-a] (X Y | X)", "[-e] (X Y) | X", "[OPTIONS] X...", "[-a] [-o] X [Y]", "[X] Y", "[X...] Y", "[-a] [X] [-o] Y"},
 			[]profile{{"raw K<=2 L<=2, env subsets", map[string]interface{}{"profile": "raw", "K": 2, "L": 2, "envmask": 15}}}, 1)...)
 	}, Bounds: precBounds, Assumptions: precAssume,
 		Outside: []string{"custom types (C19 checks SetByUser for them too)"}})
@@ -581,7 +646,10 @@ func init() {
 				}
 			}
 			for pair := 0; pair < 6; pair++ {
-				for withopt := 0; withopt <= 1; withopt++ {
+				for withopt := 0; withopt <= 2; withopt++ {
+					if withopt == 2 && pair != 0 && pair != 3 {
+						continue // the option declared with HideValue: two name pairs
+					}
 					ps := map[string]interface{}{"pair": pair, "withopt": withopt, "profile": "raw", "K": 3, "L": 1}
 					u := unit(cli, "H_defspec_names", fmt.Sprintf("H_defspec_names[pair %d opt %d raw K<=3 L<=1]", pair, withopt), ps)
 					u.Samples = 2
@@ -607,7 +675,18 @@ func init() {
 			var us []*interp.Unit
 			for _, g := range cfgs {
 				u := unit(cli, "H_helptext", fmt.Sprintf("H_helptext[%d args %d opts %d kids depth %d first %d]", g[0], g[1], g[2], g[3], g[4]),
-					map[string]interface{}{"nargs": g[0], "nopts": g[1], "nkids": g[2], "depth": g[3], "firstopt": g[4], "wordLen": 1})
+					map[string]interface{}{"nargs": g[0], "nopts": g[1], "nkids": g[2], "depth": g[3], "firstopt": g[4], "wordLen": 1, "custom": 0})
+				u.Samples = 4
+				us = append(us, u)
+			}
+			// user-defined value types (VarOpt / VarArg): every shape of {IsBoolFlag, IsDefault}, four default texts
+			cust := [][]int{{0, 0, 0, 0, 0}}
+			if !c.quick() {
+				cust = append(cust, []int{0, 0, 1, 1, 0})
+			}
+			for _, g := range cust {
+				u := unit(cli, "H_helptext", fmt.Sprintf("H_helptext[%d args %d opts %d kids depth %d first %d + custom VarOpt and VarArg]", g[0], g[1], g[2], g[3], g[4]),
+					map[string]interface{}{"nargs": g[0], "nopts": g[1], "nkids": g[2], "depth": g[3], "firstopt": g[4], "wordLen": 1, "custom": 1})
 				u.Samples = 4
 				us = append(us, u)
 			}
@@ -615,7 +694,7 @@ func init() {
 		},
 		Bounds: func(c *checkCtx) map[string]interface{} {
 			return map[string]interface{}{"declarations": "0-2 arguments, 0-3 options (6 name-list shapes: short only, long only, short+long, two shorts, two longs, long+two shorts; bool/int/ints defaults), 0-3 sub-commands (1-3 aliases, Hidden symbolic), LongDesc presence, PrintHelp/PrintLongHelp, root or sub-command",
-				"descriptions": "symbolic lower-case words (1 byte), optionally two lines; env lists of 0-3 names incl. irregular separators; HideValue; defaults with `%` and blank-only defaults; empty short description"}
+				"descriptions": "symbolic lower-case words (1 byte), optionally two lines; env lists of 0-3 names incl. irregular separators; HideValue; defaults with `%` and blank-only defaults; empty short description; user-defined values (6 shapes of IsBoolFlag/IsDefault and its answer x 4 default texts); every help is printed twice and must not change"}
 		},
 		Assumptions: append([]string{"compared after whitespace normalisation (runs of blanks collapsed, lines trimmed, empty lines dropped): text/tabwriter is a pass-through in the engine and the real one in the native twin; byte rendering by fmt and tabwriter is trusted"}, commonAssumptions...),
 		Outside:     []string{"descriptions containing blanks other than the modelled line break", "column alignment"},
@@ -634,7 +713,14 @@ func init() {
 			var us []*interp.Unit
 			for _, x := range pcs {
 				us = append(us, unit(cli, "H_decl", fmt.Sprintf("H_decl[%s optLen<=%d argLen<=%d]", x.pat, x.optLen, x.argLen),
-					map[string]interface{}{"pattern": x.pat, "ndecl": len(x.pat), "optLen": x.optLen, "argLen": x.argLen}))
+					map[string]interface{}{"pattern": x.pat, "ndecl": len(x.pat), "optLen": x.optLen, "argLen": x.argLen, "policy": 1}))
+			}
+			// the same under the two other error policies (declarations fail fast whatever the policy)
+			for _, pol := range []int{0, 2} {
+				for _, x := range []pc{{"oo", 2, 1}, {"aa", 1, 1}, {"oa", 1, 1}} {
+					us = append(us, unit(cli, "H_decl", fmt.Sprintf("H_decl[%s optLen<=%d argLen<=%d, %s]", x.pat, x.optLen, x.argLen, map[int]string{0: "ContinueOnError", 2: "PanicOnError"}[pol]),
+						map[string]interface{}{"pattern": x.pat, "ndecl": len(x.pat), "optLen": x.optLen, "argLen": x.argLen, "policy": pol}))
+				}
 			}
 			return us
 		},
@@ -658,19 +744,29 @@ func init() {
 						if fa == 0 && combo < 4 {
 							continue // no IsBoolFlag method: nothing to answer
 						}
-						u := unit(cli, "H_custom", fmt.Sprintf("H_custom[combo %03b %s IsBoolFlag()=%v Lp<=%d env<=%d]", combo, map[int]string{1: "opt", 0: "arg"}[opt], fa == 1, lp, el),
-							map[string]interface{}{"combo": combo, "opt": opt, "Lp": lp, "envLen": el, "flagAnswer": fa, "withArg": 0, "group": 0})
+						ulp := lp
+						if opt == 0 {
+							ulp = 2 // positional payloads of 2 bytes: a further `--` after the first one is a value
+						}
+						u := unit(cli, "H_custom", fmt.Sprintf("H_custom[combo %03b %s IsBoolFlag()=%v Lp<=%d env<=%d]", combo, map[int]string{1: "opt", 0: "arg"}[opt], fa == 1, ulp, el),
+							map[string]interface{}{"combo": combo, "opt": opt, "Lp": ulp, "envLen": el, "flagAnswer": fa, "withArg": 0, "group": 0, "fold": 0})
 						u.Samples = 3
 						us = append(us, u)
+						if opt == 1 && fa == 1 && combo >= 4 {
+							uf := unit(cli, "H_custom", fmt.Sprintf("H_custom[combo %03b flag folded in front of a valued option -xo<value>, Lp<=%d]", combo, lp),
+								map[string]interface{}{"combo": combo, "opt": opt, "Lp": lp, "envLen": 1, "flagAnswer": fa, "withArg": 0, "group": 0, "fold": 1})
+							uf.Samples = 2
+							us = append(us, uf)
+						}
 						if opt == 1 && fa == 1 {
 							ug := unit(cli, "H_custom", fmt.Sprintf("H_custom[combo %03b opt through an option group Lp<=%d env<=%d]", combo, lp, el),
-								map[string]interface{}{"combo": combo, "opt": opt, "Lp": lp, "envLen": el, "flagAnswer": fa, "withArg": 0, "group": 1})
+								map[string]interface{}{"combo": combo, "opt": opt, "Lp": lp, "envLen": el, "flagAnswer": fa, "withArg": 0, "group": 1, "fold": 0})
 							ug.Samples = 2
 							us = append(us, ug)
 						}
 						if opt == 1 && fa == 1 && (combo == 0 || combo == 2) {
 							u2 := unit(cli, "H_custom", fmt.Sprintf("H_custom[combo %03b opt + positional Lp<=%d]", combo, lp),
-								map[string]interface{}{"combo": combo, "opt": opt, "Lp": lp, "envLen": 1, "flagAnswer": fa, "withArg": 1, "group": 0})
+								map[string]interface{}{"combo": combo, "opt": opt, "Lp": lp, "envLen": 1, "flagAnswer": fa, "withArg": 1, "group": 0, "fold": 0})
 							u2.Samples = 2
 							us = append(us, u2)
 						}
@@ -680,7 +776,7 @@ func init() {
 			return us
 		},
 		Bounds: func(c *checkCtx) map[string]interface{} {
-			return map[string]interface{}{"types": "8 recorder types (IsBoolFlag x Clear x IsDefault; types with IsBoolFlag answering true and answering false) as option and as argument", "inputs": "0-2 command-line values (flag-like options also bare), symbolic payloads, symbolic poison token on which Set fails, symbolic environment value"}
+			return map[string]interface{}{"types": "8 recorder types (IsBoolFlag x Clear x IsDefault; types with IsBoolFlag answering true and answering false) as option and as argument", "inputs": "0-2 command-line values (flag-like options also bare, and folded in front of a valued option whose attached value is symbolic), symbolic payloads (positional ones of 2 bytes, so that a second `--` is a value), symbolic poison token on which Set fails, symbolic environment value"}
 		},
 		Assumptions: append([]string{"environment values are ASCII without NUL"}, commonAssumptions...),
 		Outside:     []string{"more than 2 values", "several environment variables"},
@@ -756,6 +852,17 @@ func requiredEnvUnits(envLen, cliLen int) []*interp.Unit {
 			u.Samples = 2
 			us = append(us, u)
 		}
+	}
+	return us
+}
+
+// ddTreeUnits: C09's insertion clause on command trees.
+func ddTreeUnits(trees []int, k, l int) []*interp.Unit {
+	var us []*interp.Unit
+	for _, t := range trees {
+		u := unit(groups["cli"], "H_dd_tree", fmt.Sprintf("H_dd_tree[tree %d, K<=%d L<=%d]", t, k, l), map[string]interface{}{"tree": t, "K": k, "L": l, "env": 0, "subpol": 0})
+		u.Samples = 2
+		us = append(us, u)
 	}
 	return us
 }
